@@ -75,6 +75,9 @@ def _neg_specs(report):
         r = tlc.run('MC_System.tla', 'MC_System_C20_neg.cfg')
         report.append('NEG %-55s %s (TLC: %s)' % ('like() as a shallow copy in the heap model', 'rejected' if r.violated else 'NOT REJECTED', r.violated))
         ok = ok and bool(r.violated)
+        r = tlc.run('MC_Reduce.tla', 'MC_Reduce_C15_neg.cfg')
+        report.append('NEG %-55s %s (TLC: %s)' % ('cumprod sized for the last product only (before D27)', 'rejected' if r.violated else 'NOT REJECTED', r.violated))
+        ok = ok and bool(r.violated)
     finally:
         shutil.rmtree(tmp, ignore_errors=True)
     return ok
